@@ -155,7 +155,7 @@ def run_case(case):
             app = mr.app.EspiritCalib(ksp, calib_width=case["cw"], thresh=case["thresh"],
                                       kernel_width=case["kw"], crop=case["crop"],
                                       output_eigenvalue=True, show_pbar=False,
-                                      max_iter=case.get("mi", 100))
+                                      **({"max_iter": case["mi"]} if case.get("mi") else {}))
         if case["eseed"] % 3 == 0:
             # history: a second calibration of the same shape and dtype is constructed before
             # the first one is run (e.g. slice-by-slice processing builds all apps first)
@@ -323,7 +323,10 @@ def run_case(case):
                 orig_init = mr.app.EspiritCalib.__init__
 
                 def init_(self, *a_, **k_):
-                    k_.setdefault("max_iter", 1000)
+                    if len(a_) >= 6:               # max_iter given positionally (6th after ksp)
+                        a_ = a_[:5] + (1000,) + a_[6:]
+                    else:
+                        k_.setdefault("max_iter", 1000)
                     return orig_init(self, *a_, **k_)
                 mr.app.EspiritCalib.__init__ = init_
                 try:
